@@ -68,3 +68,27 @@ Definition xseg_case_ok (k : xseg_case) : bool :=
     xsobs_list_eqb (map xev_obs (out s)) evs && (closed || (blen (buf s) =? nleft)) && Bool.eqb (dead s) closed && negb (stuck s)
   end.
 Definition xseg_mismatches (l : list xseg_case) : list nat := mism xseg_case_ok 0 l.
+
+(* ---- Decode, SetRequestId(id) [, SetData(d)], Encode: (codec, frame bytes, id, new body, bytes observed) ---- *)
+Definition xenc_case := (xcodec * bytes * N * option bytes * bytes)%type.
+Definition xenc_case_ok (k : xenc_case) : bool :=
+  match k with
+  | (c, b, id, sd, o) =>
+    match res (x_decode c (view_of b)) with
+    | Ok (f, _) =>
+      match c with
+      | XDubbo _ =>
+          let f1 := dubbo_set_id id f in
+          let f2 := match sd with Some d => dubbo_set_data dubbo_setdata_resets_raw d f1 | None => f1 end in
+          beq (dubbo_encode [] f2) o
+      | XThrift _ =>
+          match sd, thrift_encode [] (thrift_set_id id f) with
+          | None, Some out => beq out o
+          | _, _ => false
+          end
+      | XTars _ _ => false
+      end
+    | _ => false
+    end
+  end.
+Definition xenc_mismatches (l : list xenc_case) : list nat := mism xenc_case_ok 0 l.
